@@ -31,13 +31,22 @@ Inductive ptr :=
 | PField (b : ptr) (f : string)              (* the value b->f had on entry (union arms are not named:
                                                 "metadata.end_ptr", "metadata.tagged_item") *)
 | PSlot (b : ptr) (idx : Z) (m : string)     (* the value of b[idx].m on entry ("" for a plain slot) *)
-| PNew (k : nat).                            (* the result of the k-th allocator call on this path
-                                                (NULL when its oracle is false) *)
+| PNew (k : nat)                             (* the result of the k-th allocator call on this path
+                                                (NULL when its oracle is false); in the decoder
+                                                glue also of the k-th library constructor / pusher *)
+| PLocal (ty : string)                       (* the local variable of struct type ty (named by its type,
+                                                so that renaming or reordering locals changes nothing) *)
+| PRes (k : nat)                             (* the struct returned by value by the k-th such call *)
+| PPost (b : ptr) (f : string).              (* the value of b->f after the last opaque call that may
+                                                have changed it *)
 
 (* what the translator writes for the result of the k-th allocator call: NULL when the request was refused *)
 Definition pnew (ok : bool) (k : nat) : ptr := if ok then PNew k else PNull.
 
-Inductive arg := AP (p : ptr) | AZ (z : Z).
+Inductive arg :=
+| AP (p : ptr) | AZ (z : Z)
+| APO (p : ptr) (off : Z)                    (* byte pointer p + off *)
+| AOpaque (i : nat).                         (* the i-th parameter, of a type that is not modelled (float) *)
 
 (* ---------- ordered part: what reaches the allocator, and calls of other listed functions ---------- *)
 Inductive req :=
@@ -50,7 +59,8 @@ Inductive req :=
                                                     is the next integer oracle c_k *)
 
 (* ---------- summarised part.  Canonical order: by constructor as listed here; within one
-   constructor by the first pointer token (PNull < PArg i < PField < PSlot < PNew k), then by the
+   constructor by the first pointer token (PNull < PArg i < PField < PSlot < PNew k < PLocal < PRes
+   < PPost), then by the
    member / field name, then by the stored token ---------- *)
 Inductive eff :=
 | Incref (p : ptr)                               (* cbor_incref(p) *)
@@ -58,12 +68,15 @@ Inductive eff :=
 | Move (p : ptr)                                 (* cbor_move(p) *)
 | Store (b : ptr) (idx : Z) (m : string) (v : ptr)   (* b[idx].m = v *)
 | Fill (b : ptr) (n : Z) (v : ptr)               (* b[i] = v for every i < n *)
+| Copy (dst src : ptr) (n : Z)                   (* memcpy(dst, src, n) *)
 | SetPtr (o : ptr) (f : string) (v : ptr)        (* final value of the pointer field o->f *)
 | SetInt (o : ptr) (f : string) (v : Z).         (* final value of an integer field of a block that
                                                     has no entry value (fresh), or that the plan does
                                                     not list among p_fields *)
 
-Inductive rv := RVoid | RZ (z : Z) | RP (p : ptr).
+(* RLoop k: control arrives at the head of the k-th loop of the function (source order); a function
+   with loops is rendered as one plan from its entry and one plan from the head of each loop *)
+Inductive rv := RVoid | RZ (z : Z) | RP (p : ptr) | RLoop (k : nat).
 
 Record plan := mkplan { p_ret : rv; p_fields : list (string * Z); p_reqs : list req; p_effs : list eff }.
 
